@@ -8,6 +8,9 @@ pub struct ReplayResult {
     /// The trace text (header .. `end` line).
     pub text: String,
     pub violations: Vec<Violation>,
+    /// Number of input labels that could not be executed as written (skipped, or consumed as
+    /// a different stream label). 0 = the replay followed the file exactly.
+    pub divergences: usize,
 }
 
 /// Backend / variant recorded in the `trace` header of a file, if any.
@@ -53,6 +56,7 @@ pub fn replay(text: &str, id: &str, backend: Backend, owned: bool, note: &str) -
     // labels a stream segment produced that the input has not named yet
     let mut produced: HashMap<Aid, VecDeque<Label>> = HashMap::new();
     let mut seen_viol = 0usize;
+    let mut divergences = 0usize;
 
     let emit = |ex: &Executor, out: &mut String, lines: Vec<TraceLine>, seen: &mut usize| {
         for l in lines {
@@ -73,6 +77,7 @@ pub fn replay(text: &str, id: &str, backend: Backend, owned: bool, note: &str) -
             Ok(l) => l,
             Err(e) => {
                 out.push_str(&format!("# cannot parse: {}\n", e));
+                divergences += 1;
                 continue;
             }
         };
@@ -103,7 +108,10 @@ pub fn replay(text: &str, id: &str, backend: Backend, owned: bool, note: &str) -
                     emit(&ex, &mut out, lines, &mut seen_viol);
                 }
                 Ok(None) => {}
-                Err(e) => out.push_str(&format!("# skipped '{}': {}\n", rest, e)),
+                Err(e) => {
+                    divergences += 1;
+                    out.push_str(&format!("# skipped '{}': {}\n", rest, e))
+                }
             },
             None => {
                 let a = match &label {
@@ -119,12 +127,14 @@ pub fn replay(text: &str, id: &str, backend: Backend, owned: bool, note: &str) -
                             _ => false,
                         };
                         if !same {
+                            divergences += 1;
                             out.push_str(&format!("# note: input label '{}' consumed as '{}'\n", rest, p.text()));
                         }
                         break;
                     }
                     guard += 1;
                     if guard > 1000 {
+                        divergences += 1;
                         out.push_str(&format!("# skipped '{}': stream makes no progress\n", rest));
                         break;
                     }
@@ -136,6 +146,7 @@ pub fn replay(text: &str, id: &str, backend: Backend, owned: bool, note: &str) -
                         }
                         Ok(None) => {}
                         Err(e) => {
+                            divergences += 1;
                             out.push_str(&format!("# skipped '{}': {}\n", rest, e));
                             break;
                         }
@@ -150,5 +161,5 @@ pub fn replay(text: &str, id: &str, backend: Backend, owned: bool, note: &str) -
         Some(v) => out.push_str(&format!("end violation {} {}\n", v.id, v.text)),
     }
     ex.teardown();
-    ReplayResult { text: out, violations }
+    ReplayResult { text: out, violations, divergences }
 }
